@@ -196,8 +196,9 @@ theorem nm_exit_rule (ftol : Rat) (ndim : Nat) (s s' : NM) (pmin : Pt) (fmin m :
     (h : nmStep rnd f ftol ndim s = .done pmin fmin s' m) :
     ∃ ihi ilo, ihi < s.y.length ∧ ilo < s.y.length ∧
       (∀ j, j < s.y.length → s.y.getD ilo 0 ≤ s.y.getD j 0 ∧ s.y.getD j 0 ≤ s.y.getD ihi 0) ∧
-      rnd (rnd (2 * rabs (rnd (s.y.getD ihi 0 - s.y.getD ilo 0))) /
-        rnd (rnd (rabs (s.y.getD ihi 0) + rabs (s.y.getD ilo 0)) + rnd TINYN)) < ftol := by
+      (rnd (rnd (2 * rabs (rnd (s.y.getD ihi 0 - s.y.getD ilo 0))) /
+        rnd (rnd (rabs (s.y.getD ihi 0) + rabs (s.y.getD ilo 0)) + rnd TINYN)) < ftol ∨
+       collapsed rnd ndim s.p ilo = true) := by
   obtain ⟨hlo, hhi, hmin⟩ := scan_ok hn
   refine ⟨(scan s.y).ihi, (scan s.y).ilo, hhi, hlo, fun j hj => ⟨hmin j hj, scan_hi s.y j hj⟩, ?_⟩
   unfold nmStep at h
@@ -205,13 +206,33 @@ theorem nm_exit_rule (ftol : Rat) (ndim : Nat) (s s' : NM) (pmin : Pt) (fmin m :
   split_ifs at h with h1
   exact h1
 
+/-- what the second way out means (exact arithmetic): the source has the collapse return with some
+    factor `c`, and every vertex lies within `c·ndim·eps·|p_lo,j|` of the best vertex in every
+    coordinate — the simplex has shrunk to the resolution of the doubles around its best vertex. -/
+theorem collapsed_spec (ndim : Nat) (p : List Pt) (ilo : Nat) (h : collapsed id ndim p ilo = true) :
+    ∃ c, Feat.collapseFactor = some c ∧ ∀ row ∈ p, ∀ j, j < ndim →
+      |row.getD j 0 - (p.getD ilo []).getD j 0| ≤ c * (ndim : Rat) * ZEPS * |(p.getD ilo []).getD j 0| := by
+  unfold collapsed at h
+  split at h
+  · simp at h
+  · rename_i c hc
+    refine ⟨c, hc, ?_⟩
+    intro row hrow j hj
+    simp only [id, List.all_eq_true, decide_eq_true_eq, List.mem_range, rabs_eq] at h
+    exact not_lt.mp (h row hrow j hj)
+
 /-- … in exact arithmetic: `2·(max y − min y) < ftol·(|max y| + |min y| + TINY)` on return. -/
 theorem nm_exit_rule_exact (ftol : Rat) (ndim : Nat) (s s' : NM) (pmin : Pt) (fmin m : Rat) (hn : 2 ≤ s.y.length)
     (h : nmStep id f ftol ndim s = .done pmin fmin s' m) :
     ∃ ihi ilo, (∀ j, j < s.y.length → s.y.getD ilo 0 ≤ s.y.getD j 0 ∧ s.y.getD j 0 ≤ s.y.getD ihi 0) ∧
-      2 * (s.y.getD ihi 0 - s.y.getD ilo 0) < ftol * (|s.y.getD ihi 0| + |s.y.getD ilo 0| + TINYN) := by
+      (2 * (s.y.getD ihi 0 - s.y.getD ilo 0) < ftol * (|s.y.getD ihi 0| + |s.y.getD ilo 0| + TINYN) ∨
+       collapsed id ndim s.p ilo = true) := by
   obtain ⟨ihi, ilo, h1, h2, h3, h4⟩ := nm_exit_rule id f ftol ndim s s' pmin fmin m hn h
   refine ⟨ihi, ilo, h3, ?_⟩
+  rcases h4 with h4 | h4
+  swap
+  · exact Or.inr h4
+  left
   simp only [id, rabs_eq] at h4
   have hpos : 0 < |s.y.getD ihi 0| + |s.y.getD ilo 0| + TINYN := by
     have : 0 < TINYN := by unfold TINYN; norm_num [K.tinyNM]
@@ -243,6 +264,44 @@ theorem nmLoop_spec {ftol : Rat} {ndim : Nat} : ∀ (n : Nat) (s s' : NM) (pmin 
       obtain ⟨a, b, c, d, e, g⟩ := nmLoop_spec n s1 s' pmin fmin m (nmLoop rnd f ftol ndim n s1).2
         (by rw [hlen]; exact hn) hinv1 (by rw [← h1])
       exact ⟨a, b, c, d, e, fun M hM => g M (hbel M hM)⟩
+
+/-- `nfunc` accounting, one pass: for a proper simplex (`ndim+1` vertices) a pass that continues adds
+    to `nfunc` exactly the number of evaluations it made (reflection 1; reflection + expansion or
+    contraction 2; shrink `ndim` more). -/
+theorem nm_nfunc_step (ftol : Rat) (ndim : Nat) (s s' : NM) (tr : List EvN) (hn : 2 ≤ s.y.length)
+    (hinv : s.y = s.p.map f) (hm : s.p.length = ndim + 1) (h : nmStep rnd f ftol ndim s = .cont s' tr) :
+    s'.nfunc = s.nfunc + tr.length :=
+  nmStep_nfunc rnd f hn hinv hm h
+
+/-- … hence on return `nfunc` is the number of evaluations made after the initial simplex. -/
+theorem nm_nfunc_loop {ftol : Rat} {ndim : Nat} : ∀ (n : Nat) (s s' : NM) (pmin : Pt) (fmin m : Rat) (t : List EvN),
+    2 ≤ s.y.length → NMInv f s → s.p.length = ndim + 1 → nmLoop rnd f ftol ndim n s = (.ok pmin fmin s' m, t) →
+    s'.nfunc = s.nfunc + t.length
+  | 0, s, s', pmin, fmin, m, t, _, _, _, h => by simp [nmLoop] at h
+  | n + 1, s, s', pmin, fmin, m, t, hn, hinv, hm, h => by
+    unfold nmLoop at h
+    split at h
+    · rename_i p1 f1 s1 m1 heq
+      simp only [Prod.mk.injEq, OutN.ok.injEq] at h
+      obtain ⟨⟨_, _, rfl, _⟩, rfl⟩ := h
+      unfold nmStep at heq
+      dsimp only at heq
+      split_ifs at heq
+      simp only [NMStep.done.injEq] at heq
+      obtain ⟨_, _, rfl, _⟩ := heq
+      simp
+    · simp at h
+    · rename_i s1 tr heq
+      simp only [Prod.mk.injEq] at h
+      obtain ⟨h1, rfl⟩ := h
+      obtain ⟨hinv1, hlen, _⟩ := nmStep_cont rnd f hn hinv heq
+      have hm1 : s1.p.length = ndim + 1 := by
+        have e1 : s1.p.length = s1.y.length := by rw [hinv1, List.length_map]
+        have e0 : s.p.length = s.y.length := by rw [hinv, List.length_map]
+        omega
+      have ih := nm_nfunc_loop n s1 s' pmin fmin m (nmLoop rnd f ftol ndim n s1).2 (by rw [hlen]; exact hn) hinv1 hm1 (by rw [← h1])
+      rw [ih, nmStep_nfunc rnd f hn hinv hm heq, List.length_append]
+      omega
 
 /-- `nm_values_consistent` + `nm_best_monotone` for `minimize(pp, func)`: on return
     `y = map f simplex` (every `y[i]` is the objective at vertex `i`, including after shrink steps),
